@@ -1,6 +1,7 @@
 """Generators, model encoding, comparison and predicates for SimulatedBroker / Portfolio
 operation sequences (shared by C01, C02, C03, C04, C05, C15)."""
 from fractions import Fraction
+from . import recase as rc
 import math
 
 from .engine import Judgement
@@ -11,6 +12,8 @@ DAY = 86400
 OPEN, CLOSE = 52200, 75600
 ASSETS = ['AAA', 'BBB', 'CCC', 'DDD']
 PIDS = ['P1', 'P2', 'P3', 'P4']
+STR_PIDS = PIDS
+NUM_PIDS = ['1234', '77', '5', '900']
 
 
 # ---------------------------------------------------------------- generators
@@ -73,6 +76,7 @@ def gen_broker_case(rng, stream='valid', n_ops=None, exact=False, fee=None, npf=
     pfcash = {}          # pid -> Fraction (transfer-only view) or None once fills happened
     created = []
     pending = {}
+    PIDS = NUM_PIDS if rng.random() < 0.15 else STR_PIDS          # numeric-looking ids: '1234' is a portfolio, the int 1234 is not
     # the first portfolio stays idle (no transfer, no order): the others are validated after it
     idle_first = npf >= 2 and rng.random() < 0.2
 
@@ -117,6 +121,11 @@ def gen_broker_case(rng, stream='valid', n_ops=None, exact=False, fee=None, npf=
                 p = rng.choice(created)
                 if pfcash[p] is not None and pfcash[p] > 0:
                     ops.append(['wdpf', p, near(pfcash[p])])
+            if created and created[0].isdigit() and rng.random() < 0.5:
+                p_ = ['int', rng.choice(created)]
+                ops.append(rng.choice([['subpf', p_, amt(0, 10)], ['wdpf', p_, 0.0], ['submit', p_, rng.choice(assets), rng.randint(1, 50)],
+                                       ['getpfcash', p_]]))
+                continue
             if k == 'negsub':
                 ops.append(['subacct', -amt(0.25, 1000)])
             elif k == 'negwd':
@@ -219,13 +228,19 @@ def gen_broker_case(rng, stream='valid', n_ops=None, exact=False, fee=None, npf=
                     ops.append([k, rng.choice(created)])
             else:
                 ops.append([k])
-    return {'kind': 'broker', 'stream': stream + (':exact' if exact else ''),
+    case = {'kind': 'broker', 'stream': stream + (':exact' if exact else ''),
             'cfg': {'start': start, 'base': (rng.choice(['usd', 'Usd', 'gbp', 'eur', 'Eur', 'UsD', 'XYZ', 'JPY', 'USDX']) if rng.random() < 0.04 else rng.choice(['USD', 'USD', 'GBP', 'EUR'])), 'funds': funds, 'fee': fee, 'pre': 1,
                     # the exchange object has its own start argument (the documented hours do not depend on it)
                     'exch_start': (start + rng.choice([86400, 10 * 86400, 400 * 86400, -86400, 3600]) if rng.random() < 0.3 else None),
                     # every order of the case carries the same caller-supplied order id
-                    'dup_ids': rng.random() < 0.15},
+                    'dup_ids': rng.random() < 0.15,
+                    # the fee model is assigned to the broker's public attribute after construction
+                    'fee_late': rng.random() < 0.15},
             'quotes': quotes, 'ops': ops, 'exact': exact, 'assets': assets}
+    if rng.random() < 0.12:
+        case = rc.recase(case, rc.mapping(rng))          # symbols with lower-case letters
+        case['stream'] += ':mixed-case-symbols'
+    return case
 
 
 def scale_of(case):
@@ -250,6 +265,9 @@ def fee_val(f):
 
 def op_val(op):
     k = op[0]
+    if len(op) > 1 and isinstance(op[1], list):
+        # a portfolio id handed over as an int: the broker's table is keyed by strings, so it names no portfolio
+        op = [op[0], 'no-such-portfolio'] + list(op[2:])
     if k in ('subacct', 'wdacct'):
         return [k, Fraction(op[1])]
     if k in ('subpf', 'wdpf'):
@@ -557,8 +575,12 @@ def gen_portfolio_case(rng, stream='valid', n_ops=None, exact=False, real_qty=Fa
             t = t2
         else:
             ops.append(['mark', a, price[a], t2])
-    return {'kind': 'portfolio', 'stream': stream + (':exact' if exact else ''), 'start': start, 'cash': cash,
+    case = {'kind': 'portfolio', 'stream': stream + (':exact' if exact else ''), 'start': start, 'cash': cash,
             'ops': ops, 'exact': exact}
+    if rng.random() < 0.12:
+        case = rc.recase(case, rc.mapping(rng))
+        case['stream'] += ':mixed-case-symbols'
+    return case
 
 
 def pscale_of(case):
